@@ -272,6 +272,14 @@ func streamScope(o *Out, r *rand.Rand, n int, thorough bool) {
 		{"ts = make([]int64, 3)\nts[0] = 5\nts[1] = 6\nts[2] = 7\nseen = []\nfor i in ts {\nseen += i\ndelete(\"i\")\n}\nprobe(seen)", vals.Encode([]interface{}{int64(5), int64(6), int64(7)})},
 	}
 	closureCases = append(closureCases, []struct{ src, want string }{
+		// a function literal evaluated twice in different scopes gives two closures, each over ITS defining scope - also when the literal declares
+		// the captured name again somewhere inside (inner block, loop variable, catch variable, an inner literal's parameter, its own initialiser)
+		{"func mk(n) { return func(c) { if c { var n = 100; return n }; return n } }\na = mk(1)\nb = mk(2)\nprobe([a(false), b(false), a(true)])", vals.Encode([]interface{}{int64(1), int64(2), int64(100)})},
+		{"func mk(n) { return func() { for n in [7] { }; return n } }\na = mk(1)\nb = mk(2)\nprobe([a(), b()])", vals.Encode([]interface{}{int64(1), int64(2)})},
+		{"func mk(n) { return func() { try { throw 1 } catch n { }; return n } }\na = mk(1)\nb = mk(2)\nprobe([a(), b()])", vals.Encode([]interface{}{int64(1), int64(2)})},
+		{"func mk(n) { return func() { f = func(n) { return n }; return n + f(0) } }\na = mk(1)\nb = mk(2)\nprobe([a(), b()])", vals.Encode([]interface{}{int64(1), int64(2)})},
+		{"func mk(n) { return func() { var n = n * 10; return n } }\na = mk(1)\nb = mk(2)\nprobe([a(), b()])", vals.Encode([]interface{}{int64(10), int64(20)})},
+		{"fs = []\nfor i = 0; i < 3; i++ {\nfs += func(k) { return func() { if false { var k = 9 }; return k } }(i)\n}\nprobe([fs[0](), fs[1](), fs[2]()])", vals.Encode([]interface{}{int64(0), int64(1), int64(2)})},
 		// `_` is a name like any other: assignment updates the nearest binding or creates one, reads see it
 		{"_ = 1\nprobe(_)", vals.Encode(int64(1))},
 		{"func f(_) {\n_ = 2\nreturn _\n}\nprobe(f(1))", vals.Encode(int64(2))},
